@@ -238,6 +238,7 @@ func checkC16(c *Ctx, r *Report) {
 	r.rule("C16.R7", "the tag number a member is matched against comes from its `tagNum:` parameter only: every assignment of fieldParameters.tagNumber in the tag parser lies behind the test for that prefix", 1)
 	r.rule("C16.R8", "a tag number that does not fit 64 bits is refused: the guard behind the base-128 loop admits at most nine tag-number octets (63 bits) - a tenth wraps the accumulator, and an element tagged 2^64+k is taken for the member tagged k", 1)
 	r.rule("C16.R5", "reflect Set in the special-type cases is type-correct", 3)
+	r.rule("C16.R10", "every reflect Field / Index argument of the decoder is non-negative on its path (a look-up that reports `not found` as -1 must not reach Field)", 3)
 	r.rule("C16.R9", "every typed reflect setter (SetInt, SetBool, SetString ...) of the decoder is reached only for a kind it accepts", 3)
 
 	posts := c16Posts(c, r, "C16.R1")
@@ -488,6 +489,7 @@ func checkC16(c *Ctx, r *Report) {
 	// ---- R5 reflect.Set assignability
 	c16ReflectSet(c, r)
 	c16KindTypedSetters(c, r, "C16.R9")
+	c04ReflectIndexOpt(c, r, c.fn("cdr/asn", "ParseField"), "C16.R10", true)
 }
 
 // guardedByEquivalentIndex: the nil test and the dereference go through two
